@@ -56,8 +56,6 @@ D8_WHERE = re.compile(r"^/imagery/[A-Za-z0-9_]+#(" + "|".join(D8_NAMES) + r")$")
 
 @matcher("D8")
 def match_d8(pid, case, d):
-    if case.get("level") != "1.1":
-        return False
     if not D8_WHERE.match(d["where"]):
         return False
     if pid == "C12":
